@@ -19,7 +19,7 @@ EXTENDS MatrixCache, C03TraceCommon, TraceLib
 VARIABLES l, cfgLine, geoms, st, hist, bad
 
 NoObj == [none |-> TRUE]
-Impls == {"RayTracing", "Interpolation", "FromFile"}
+Impls == {"RayTracing", "Interpolation", "FromFile", "SPECTUB"}
 \* "ProjMatrixByBinUsingRayTracing sadly doesn't support shifted x/y origin yet" (more than 0.05 mm; 2^-12 mm units)
 MustRefuse(geo) == geo.impl = "RayTracing" /\ (Abs(geo.ox) > 205 \/ Abs(geo.oy) > 205)
 (* ---------------- rows: fixed point 2^-20, "up to floating-point rounding" --- *)
@@ -122,6 +122,7 @@ Outcome(r) ==
                        THEN "C03-fromfile-header" ELSE "new",
                        NewFromFile(GenOf(r.src), cc, gg, SwOf(r.sw), r.cacheOn, r.basicOnly))
               ELSE Res(FALSE, "new", st)
+         ELSE IF r.impl = "SPECTUB" THEN Res(TRUE, "new", NewSpectub(r.keepAll, r.cacheOn, r.basicOnly))
          ELSE Res(r.impl \in Impls, "new", NewMatrix(r.impl, SwOf(r.sw), r.cacheOn, r.basicOnly))
     [] r.e = "Parse" -> IF HasObj /\ st.impl = "Interpolation" THEN Res(~r.failed, "new", DoParse(st, SwOf(r.sw), r.cacheOn, r.basicOnly).st)
                         ELSE Res(FALSE, "new", st)
@@ -138,10 +139,37 @@ Outcome(r) ==
                        obs == { ObsHook(r.hooks[i]) : i \in 1..Len(r.hooks) }
                    IN Res(r.err = o.refused /\ obs = o.inserts /\ Len(r.hooks) = Cardinality(o.inserts)
                           /\ (~o.refused => (Len(r.eff) = 5 /\ SwOf(r.eff) = o.st.esw)), "new", o.st)
+              ELSE IF st.impl = "SPECTUB"
+              THEN LET o == DoSetUpSpectub(st, GenOf(r.gid), CfgOf(geo), GridOf(geo))
+                   IN Res(~r.err /\ ObsHooks(r.hooks) = o.hooks, "new", o.st)
               ELSE IF MustRefuse(geo)
               THEN LET o == DoSetUpRefused(st) IN Res(r.err /\ ObsHooks(r.hooks) = o.hooks, "new", o.st)
               ELSE LET o == DoSetUp(st, GenOf(r.gid), CfgOf(geo), GridOf(geo))
                    IN Res(~r.err /\ ObsHooks(r.hooks) = o.hooks /\ Len(r.eff) = 5 /\ SwOf(r.eff) = o.st.esw, "new", o.st)
+         ELSE Res(FALSE, "new", st)
+    [] r.e = "Get" /\ HasObj /\ st.impl = "SPECTUB" ->
+         IF st.gen >= 1 /\ InRange(st.c, BinOfList(r.b))
+         THEN LET b == BinOfList(r.b)
+                  o == DoGetSpectub(st, b)
+                  geo == geoms[st.gen]
+                  hs == ObsHooks(r.hooks)
+                  np == Len(o.pre)  nc == IF o.clear THEN 1 ELSE 0  ni == Cardinality(o.inserts)
+                  \* call-outs: the look-ups, the clear_cache of the "one view at a time" mode, the rows of the view
+                  \* (in the order of the implementation's tables), the row offered for the bin itself
+                  hooksOk == /\ Len(hs) = np + nc + ni + Len(o.post)
+                             /\ SubSeq(hs, 1, np) = o.pre
+                             /\ o.clear => hs[np + 1] = EvClear
+                             /\ { hs[i] : i \in (np + nc + 1)..(np + nc + ni) } = o.inserts
+                             /\ SubSeq(hs, np + nc + ni + 1, Len(hs)) = o.post
+                  labelOk == BinOfList(r.rb) = b
+              IN IF IsEmptyRow(o.ret)
+                 THEN \* known finding C03-spectub-empty: the implementation hands back an empty row here
+                      Res(FALSE, IF hooksOk /\ ~r.err /\ labelOk /\ r.row = << >> THEN "C03-spectub-empty" ELSE "new", o.st)
+                 ELSE LET rf == TraceLog[cfgLine + r.ref]
+                          refOk == /\ r.ref >= 1 /\ cfgLine + r.ref <= Len(TraceLog) /\ rf.e = "Ref"
+                                   /\ rf.gid \in 1..Len(geoms) /\ geoms[rf.gid] = geo /\ rf.b = r.b
+                          cls == RowClass(geo, r.row, hooksOk /\ ~r.err /\ labelOk /\ refOk /\ RowEq(r.row, rf.row))
+                      IN Res(cls = "ok", cls, o.st)
          ELSE Res(FALSE, "new", st)
     [] r.e = "Get" ->
          IF HasObj /\ st.gen >= 1 /\ InRange(st.c, BinOfList(r.b))
@@ -185,7 +213,9 @@ Next == /\ l <= Len(TraceLog)
              /\ UNCHANGED <<cfgLine, st, hist>>
              /\ geoms' = Append(geoms, GeoOf(r))
              /\ bad' = IF r.gid = Len(geoms) + 1 /\ GeometryOk(r) /\ r.ntl >= 1 /\ r.impl \in Impls
-                          /\ (r.geom = "Cylindrical" \/ (r.impl = "RayTracing" /\ BlocksConfigOk(CfgOf(r), GridOf(r)))) THEN bad ELSE Note("new")
+                          /\ (r.geom = "Cylindrical" \/ (r.impl = "RayTracing" /\ BlocksConfigOk(CfgOf(r), GridOf(r))))
+                          \* SPECTUB: one segment, as many image planes as axial positions
+                          /\ (r.impl = "SPECTUB" => (r.maxSeg = 0 /\ r.zmax - r.zmin + 1 = r.R /\ RoundTo(r.nppr1024, 1024) = 1)) THEN bad ELSE Note("new")
            ELSE LET o == Outcome(r) IN
              /\ UNCHANGED <<cfgLine, geoms>>
              /\ st' = o.st
